@@ -22,6 +22,8 @@ def _copy_src(root, tmp):
 
 def _analyse(prop, tmp):
     repo = Repo(tmp)
+    from ..run import _register_abstract_classes
+    _register_abstract_classes(repo)
     mod = importlib.import_module("sa.checks." + prop)
     res = report.Result(prop, repo)
     mod.check(repo, res, "quick")
